@@ -101,6 +101,7 @@ func rulesC10(c *Ctx) {
 	c12Registrars(c)
 	c12AnyOf(c)
 	c12Shared(c)
+	c12Unwrap(c)
 	c.Rule("fresh-executor")
 	c01Self(c)
 	buildCopiesConfig(c)
